@@ -102,8 +102,18 @@ pub fn one_call(pat: Pat, psk_mask: u16, initiator: bool, k: usize, psk_missing:
             let r = hs.into_transport_mode();
             if finished {
                 assert!(r.is_ok(), "C11: conversion refused after the last message");
-                if let Ok(t) = r {
+                if let Ok(mut t) = r {
                     assert!(t.is_initiator() == initiator, "C11: role after conversion");
+                    let w = t.write_message(&payload, &mut buf);
+                    let rd = t.read_message(&buf[..18], &mut out);
+                    if pat.is_oneway() && !initiator {
+                        assert!(w == Err(Error::State(StateProblem::OneWay)), "C11: the responder of a one-way pattern wrote a transport message");
+                    } else {
+                        assert!(w == Ok(18), "C11: a legitimate transport write was refused after conversion");
+                    }
+                    if pat.is_oneway() && initiator {
+                        assert!(rd == Err(Error::State(StateProblem::OneWay)), "C11: the initiator of a one-way pattern read a transport message");
+                    }
                     core::mem::forget(t);
                 }
             } else {
@@ -117,6 +127,16 @@ pub fn one_call(pat: Pat, psk_mask: u16, initiator: bool, k: usize, psk_missing:
                 assert!(r.is_ok(), "C11: stateless conversion refused after the last message");
                 if let Ok(t) = r {
                     assert!(t.is_initiator() == initiator, "C11: role after conversion");
+                    let w = t.write_message(7, &payload, &mut buf);
+                    let rd = t.read_message(7, &buf[..18], &mut out);
+                    if pat.is_oneway() && !initiator {
+                        assert!(w == Err(Error::State(StateProblem::OneWay)), "C11: the responder of a one-way pattern wrote a stateless transport message");
+                    } else {
+                        assert!(w == Ok(18), "C11: a legitimate stateless transport write was refused after conversion");
+                    }
+                    if pat.is_oneway() && initiator {
+                        assert!(rd == Err(Error::State(StateProblem::OneWay)), "C11: the initiator of a one-way pattern read a stateless transport message");
+                    }
                     core::mem::forget(t);
                 }
             } else {
